@@ -208,6 +208,9 @@ def run(ctx):
                     lambda v: em.correct_pva(make_pva(v), vec(v, X9, 7))[["alt", "VD"]],
                     lambda v: [v["h"], v["VD"]], BOX, cos_nonneg=COSNN, py=py, cell_names=["alt", "VD"])
 
+    # correct_pva reaches transform.perturb_lla: its closed form for all longitudes (C16's contract) re-established here
+    from props import C16 as _C16
+    ctx.guard(_C16.perturb_contract, ctx, py, "C05")
     # frame of the modules under contract (no state kept between calls, arguments left alone): same analysis as C19
     from props import C19 as _C19
     ctx.guard(_C19.frame_obligations, ctx, py, "C05", {'error_model', 'transform', 'util', 'sim'})
